@@ -13,6 +13,7 @@ type Fault struct {
 	Data  []byte  `json:"data,omitempty"`
 	Bit   int     `json:"bit,omitempty"`
 	Mode  string  `json:"mode,omitempty"`
+	Also  *Fault  `json:"also,omitempty"` // D: a second damage applied after this one (log and index both torn)
 }
 
 // SchedP are the scheduler parameters of an engine-S run.
